@@ -56,3 +56,100 @@ Definition spec_base (method scheme host : text) (port : option text) (path : te
                      (ps : list (text * text)) : text :=
   rfc_base_string method (rfc_base_uri scheme host port path) (spec_params ps).
 Definition spec_key (cs ts : text) : text := esc cs ++ AMP :: esc ts.
+
+(* ====================================================================== *)
+(* Phase 3: percent-encoding, keys and the request parameter set,          *)
+(* again written independently of the model.                               *)
+(* ====================================================================== *)
+From Coq Require Import String.
+(* RFC 3986 2.3: unreserved = ALPHA / DIGIT / "-" / "." / "_" / "~" *)
+Definition rfc_unreserved : text :=
+  txt "ABCDEFGHIJKLMNOPQRSTUVWXYZabcdefghijklmnopqrstuvwxyz0123456789-._~".
+Definition HEXUP : text := txt "0123456789ABCDEF".
+Definition mem (c : N) (l : text) : bool := existsb (N.eqb c) l.
+(* RFC 5849 3.6: hexadecimal characters in encodings MUST be upper case *)
+Definition hexval_up (c : N) : option N :=
+  if (48 <=? c) && (c <=? 57) then Some (c - 48)
+  else if (65 <=? c) && (c <=? 70) then Some (c - 55) else None.
+
+(* strict decoder of 3.6-encoded text: unreserved characters stand for themselves, '%' must be
+   followed by two upper-case hex digits, anything else is rejected *)
+Fixpoint unesc (s : text) : option text :=
+  match s with
+  | [] => Some []
+  | c :: t =>
+      if c =? 37 then
+        match t with
+        | h :: l :: t2 =>
+            match hexval_up h, hexval_up l, unesc t2 with
+            | Some a, Some b, Some r => Some ((a * 16 + b) :: r)
+            | _, _, _ => None
+            end
+        | _ => None
+        end
+      else if mem c rfc_unreserved then
+        match unesc t with Some r => Some (c :: r) | None => None end
+      else None
+  end.
+
+(* splitting a key at its first '&' and decoding both halves (what a verifier that only knows
+   the key could do) *)
+Fixpoint split_amp (s : text) : option (text * text) :=
+  match s with
+  | [] => None
+  | c :: t => if c =? AMP then Some ([], t)
+              else match split_amp t with Some (a, b) => Some (c :: a, b) | None => None end
+  end.
+Definition key_secrets (k : text) : option (text * text) :=
+  match split_amp k with
+  | Some (a, b) => match unesc a, unesc b with Some x, Some y => Some (x, y) | _, _ => None end
+  | None => None
+  end.
+
+(* the key Tornado's OAuth 1.0 code built before fix f833e02: the raw secrets joined with '&' *)
+Definition raw_key (cs ts : text) : text := cs ++ AMP :: ts.
+
+(* ---------- request parameters (RFC 5849 3.1, 3.4.1.3.1) ---------- *)
+Definition has_key (k : text) (d : list (text * text)) : bool := existsb (fun kv => text_eqb k (fst kv)) d.
+(* the parameter set that is signed: the request's own parameters plus every protocol
+   parameter they do not already name *)
+Definition spec_signed (protocol user : list (text * text)) : list (text * text) :=
+  filter (fun kv => negb (has_key (fst kv) user)) protocol ++ user.
+(* the protocol parameters, from an independent reading of 3.1 *)
+Definition parse_dec_digit (c : N) : option Decimal.uint -> option Decimal.uint := fun r =>
+  match r with
+  | None => None
+  | Some u =>
+      if c =? 48 then Some (Decimal.D0 u) else if c =? 49 then Some (Decimal.D1 u)
+      else if c =? 50 then Some (Decimal.D2 u) else if c =? 51 then Some (Decimal.D3 u)
+      else if c =? 52 then Some (Decimal.D4 u) else if c =? 53 then Some (Decimal.D5 u)
+      else if c =? 54 then Some (Decimal.D6 u) else if c =? 55 then Some (Decimal.D7 u)
+      else if c =? 56 then Some (Decimal.D8 u) else if c =? 57 then Some (Decimal.D9 u)
+      else None
+  end.
+Definition parse_uint (s : text) : option Decimal.uint := fold_right parse_dec_digit (Some Decimal.Nil) s.
+(* s is the canonical decimal numeral of n: digits only, no leading zero, value n *)
+Definition is_decimal_of (n : N) (s : text) : bool :=
+  match parse_uint s with
+  | Some u => (N.of_uint u =? n) && Decimal.uint_beq (Decimal.unorm u) u
+  | None => false
+  end.
+Definition hexval_low (c : N) : option N :=
+  if (48 <=? c) && (c <=? 57) then Some (c - 48)
+  else if (97 <=? c) && (c <=? 102) then Some (c - 87) else None.
+Fixpoint is_hex_of (bs s : text) : bool :=
+  match bs, s with
+  | [], [] => true
+  | b :: bs', h :: l :: s' =>
+      match hexval_low h, hexval_low l with
+      | Some x, Some y => (x * 16 + y =? b) && is_hex_of bs' s'
+      | _, _ => false
+      end
+  | _, _ => false
+  end.
+
+(* what the server verifies (3.4.1.3.1): every parameter of the request except oauth_signature *)
+Definition server_params (sent : list (text * text)) : list (text * text) :=
+  filter (fun kv => negb (text_eqb (fst kv) K_SIGNATURE)) sent.
+Definition protocol_names : list text :=
+  [K_CONSUMER_KEY; K_TOKEN; K_SIGNATURE_METHOD; K_TIMESTAMP; K_NONCE; K_VERSION; K_SIGNATURE].
